@@ -56,7 +56,16 @@ NoneUses == {"result", "call", "apply", "bind", "map", "forEach", "filter", "red
              "stringify", "parse", "new", "getter", "setter", "valueOf", "toString", "toJSON", "nested_arg", "in_array", "in_object",
              "conditional", "return"}
 JsonUses == {"reviver", "replacer_fn", "replacer_arr", "toJSON", "toJSON_nested", "indent"}
+\* iter   : loop variables of for-in / for-of and callback arguments while the body deletes keys or shrinks the receiver
+\* text   : values of code or data made from text at run time (direct / indirect eval, Function bodies, JSON.parse, nested eval)
+IterLoops == {"forin_obj", "forin_arr", "forof_arr", "forEach", "map", "some", "reduce", "forin_proto", "forof_str"}
+IterMuts == {"none", "delete_first", "delete_middle", "delete_last", "delete_all", "delete_next", "pop", "shift", "truncate", "splice_tail", "add_key", "push"}
+TextMakers == {"eval", "ieval", "Function", "eval_in_fn", "eval_in_eval", "JSON.parse", "eval_via_var", "eval_call"}
+TextValues == {"({a:1})", "[1,2]", "null", "undefined", "({a:[1,{b:2}]})", "[[1],[2]]", "(function(){ return 1 })", "/a/g", "'s'", "1.5", "[]", "({})",
+               "new Error('x')", "[null, undefined]"}
 Probes == [fam : {"cb"}, api : CbApis, recv : CbRecvs, ret : CbRets]
+          \cup [fam : {"iter"}, loop : IterLoops, mut : IterMuts]
+          \cup [fam : {"text"}, mk : TextMakers, val : TextValues]
           \cup [fam : {"rxcb"}, api : RxCbApis, pat : RxPats, subj : RxSubjs]
           \cup [fam : {"rxres"}, api : RxResApis, pat : RxPats, subj : RxSubjs]
           \cup [fam : {"conv"}, use : ConvUses]
